@@ -71,7 +71,9 @@ static _Bool cmv_p_preempted;         /* the environment took P's record away du
         OBT("C08-O1", CMV_ISIG(0), "at every suspension point: units available implies a grant is pending (the guard was signalled after the change that freed them)"); \
         OBT("C14-O1", CMV_IREC, "at every suspension point the last recorded sample equals the amount in use"); \
     } while (0)
+#ifndef CMV_MAX_WAITS
 #define CMV_MAX_WAITS 2u
+#endif
 #include "cmv_guardstub.h"
 
 #include "src/cmb_resourcepool.c"
